@@ -681,6 +681,7 @@ def m_push(I, a, e, ci):
             lc = c
             break
     if lc is not None and ref.root_id is not None and ref.root_id in lc["outer_ids"]:
+        I.refuse_conditional_loop_effect("push", e)
         lc["pushes"].append((ref, v, e))
         return UNIT
     ref.set(Vec(cur.segs + [Seg(1, lambda j, v=v: v)]))
